@@ -1,0 +1,138 @@
+//go:build verif
+
+// Contracts for the lungovc verification-condition generator (/verif).
+// This file is comment-only; it is never part of a normal build.
+
+package lungo
+
+// ---------------------------------------------------------------------------
+// engine.go: the writer-token typestate (C16), publication of a commit (C03,
+// C05) and the snapshot a transaction starts from (C04).
+//
+// bal(e) = tokens taken from the semaphore and not given back, minus one if a
+// write transaction is registered in the engine. Every method keeps it
+// unchanged: a token that was acquired is either registered (Begin succeeds) or
+// released (every failure path); unregistering a transaction releases its token
+// exactly once (Commit, Abort). The driver starts from bal = 0, so a release
+// without a token in hand (bal < 0) and a leaked token (bal > 0) are both
+// excluded by induction over the calls.
+
+//@ define bal(e) = ghost.held - ite(e.txn != nil, 1, 0)
+
+// package-level error values (assigned once, by errors.New)
+//@ global ErrEngineClosed != nil
+//@ global ErrSessionEnded != nil
+
+//@ func (*Transaction).Dirty
+//@   tags C03
+//@   requires t != nil
+//@   modifies nothing
+//@   ensures [C03] result == t.dirty
+//@ func (*Transaction).Catalog
+//@   tags C03
+//@   requires t != nil
+//@   modifies nothing
+//@   ensures [C03] result == t.catalog
+//@ func (*Transaction).Clean
+//@   trusted
+//@   modifies t.catalog, t.dirty
+//@ func (*Session).Transaction
+//@   tags C16
+//@   requires s != nil
+//@   modifies nothing
+//@   ensures [C16] result == s.txn
+
+//@ func (*Engine).Begin
+//@   tags C16 C04
+//@   requires e != nil && e.token != nil && bal(e) >= 0
+//@   modifies e.txn, ghost.held
+//@   ensures [C16 name=balance] bal(e) == old(bal(e))
+//@   ensures [C16 name=registered] imp(err == nil && lock, result != nil && result == e.txn)
+//@   ensures [C16 name=exclusive] imp(err == nil && lock, old(e.txn) == nil)
+//@   ensures [C16 name=failed-clean] imp(err != nil, result == nil && e.txn == old(e.txn))
+//@   ensures [C16 name=snapshot-untracked] imp(!lock, e.txn == old(e.txn) && ghost.held == old(ghost.held))
+//@   ensures [C16 name=closed] imp(!ghost.alive, err != nil && ghost.held == old(ghost.held))
+//@   ensures [C04 name=snapshot-current] imp(err == nil, result != nil && result.catalog == e.catalog && !result.dirty)
+
+//@ func (*Engine).Commit
+//@   tags C16 C03 C05
+//@   requires e != nil && e.token != nil && txn != nil && e.store != nil && bal(e) >= 0
+//@   modifies e.txn, e.catalog, ghost.held, txn.catalog, txn.dirty
+//@   ensures [C16 name=balance] bal(e) == old(bal(e))
+//@   ensures [C16,C05 name=finished] imp(ghost.alive && old(e.txn) == txn, e.txn == nil)
+//@   ensures [C16 name=foreign-untouched] imp(old(e.txn) != txn, err != nil && e.txn == old(e.txn) && ghost.held == old(ghost.held) && e.catalog == old(e.catalog))
+//@   ensures [C03,C05 name=all-or-nothing] imp(err != nil, e.catalog == old(e.catalog))
+//@   ensures [C03 name=published] imp(err == nil && old(txn.dirty), e.catalog == txn.catalog)
+//@   ensures [C03 name=clean-commit] imp(err == nil && !old(txn.dirty), e.catalog == old(e.catalog))
+
+//@ func (*Engine).Abort
+//@   tags C16 C03
+//@   requires e != nil && e.token != nil && txn != nil && bal(e) >= 0
+//@   modifies e.txn, ghost.held
+//@   ensures [C16 name=balance] bal(e) == old(bal(e))
+//@   ensures [C16 name=aborted] imp(ghost.alive && old(e.txn) == txn, e.txn == nil)
+//@   ensures [C16 name=foreign-untouched] imp(old(e.txn) != txn, e.txn == old(e.txn) && ghost.held == old(ghost.held))
+//@   ensures [C03 name=nothing-published] e.catalog == old(e.catalog)
+
+// ---------------------------------------------------------------------------
+// utils.go / session.go: every way of running a write finishes it. The callback
+// is assumed not to touch the engine's transaction slot or the session's
+// transaction itself (param.fn = pure: it works on the transaction it is given).
+// `panics` is checked on the exit taken when the callback panics and the
+// function is left through its deferred calls.
+
+//@ func assertOptions
+//@   trusted
+//@   modifies nothing
+
+//@ func useTransaction
+//@   tags C16
+//@   opt param.fn = pure
+//@   requires engine != nil && engine.token != nil && engine.store != nil && bal(engine) >= 0
+//@   ensures [C16 name=balance] bal(engine) == old(bal(engine))
+//@   ensures [C16 name=slot-restored] engine.txn == old(engine.txn)
+//@   panics [C16 name=released-on-panic] bal(engine) == old(bal(engine)) && engine.txn == old(engine.txn)
+
+//@ func (*Session).startTransaction
+//@   tags C16
+//@   requires s != nil && s.engine != nil && s.engine.token != nil && bal(s.engine) >= 0
+//@   modifies s.txn, s.starting, s.engine.txn, ghost.held
+//@   ensures [C16 name=balance] bal(s.engine) == old(bal(s.engine))
+//@   ensures [C16 name=starting-reset] imp(!old(s.starting), !s.starting)
+//@   ensures [C16 name=started] imp(err == nil, s.txn != nil && s.txn == s.engine.txn && !s.ended)
+//@   ensures [C16 name=failed-clean] imp(err != nil, s.txn == old(s.txn) && s.engine.txn == old(s.engine.txn))
+
+//@ func (*Session).CommitTransaction
+//@   tags C16 C03
+//@   requires s != nil && s.engine != nil && s.engine.token != nil && s.engine.store != nil && bal(s.engine) >= 0
+//@   modifies s.txn, s.engine.txn, s.engine.catalog, ghost.held, comp(Transaction.catalog), comp(Transaction.dirty)
+//@   ensures [C16 name=balance] bal(s.engine) == old(bal(s.engine))
+//@   ensures [C16 name=session-cleared] imp(!s.ended, s.txn == nil)
+//@   ensures [C16 name=engine-finished] imp(ghost.alive && !s.ended && old(s.txn) != nil && old(s.txn) == old(s.engine.txn), s.engine.txn == nil)
+//@   ensures [C03 name=all-or-nothing] imp(err != nil, s.engine.catalog == old(s.engine.catalog))
+
+//@ func (*Session).AbortTransaction
+//@   tags C16 C03
+//@   requires s != nil && s.engine != nil && s.engine.token != nil && bal(s.engine) >= 0
+//@   modifies s.txn, s.engine.txn, ghost.held
+//@   ensures [C16 name=balance] bal(s.engine) == old(bal(s.engine))
+//@   ensures [C16 name=session-cleared] imp(!s.ended, s.txn == nil)
+//@   ensures [C16 name=engine-finished] imp(ghost.alive && !s.ended && old(s.txn) != nil && old(s.txn) == old(s.engine.txn), s.engine.txn == nil)
+//@   ensures [C03 name=nothing-published] s.engine.catalog == old(s.engine.catalog)
+
+//@ func (*Session).EndSession
+//@   tags C16 C03
+//@   requires s != nil && s.engine != nil && s.engine.token != nil && bal(s.engine) >= 0
+//@   modifies s.txn, s.ended, s.engine.txn, ghost.held
+//@   ensures [C16 name=balance] bal(s.engine) == old(bal(s.engine))
+//@   ensures [C16 name=ended] s.ended && imp(!old(s.ended), s.txn == nil)
+//@   ensures [C16 name=engine-finished] imp(ghost.alive && !old(s.ended) && old(s.txn) != nil && old(s.txn) == old(s.engine.txn), s.engine.txn == nil)
+//@   ensures [C03 name=nothing-published] s.engine.catalog == old(s.engine.catalog)
+
+//@ func (*Session).WithTransaction
+//@   tags C16
+//@   opt param.fn = pure
+//@   requires s != nil && s.engine != nil && s.engine.token != nil && s.engine.store != nil && bal(s.engine) >= 0
+//@   ensures [C16 name=balance] bal(s.engine) == old(bal(s.engine))
+//@   ensures [C16 name=finished] imp(ghost.alive && !s.ended && old(s.txn) == nil && !old(s.starting), s.txn == nil)
+//@   panics [C16 name=released-on-panic] bal(s.engine) == old(bal(s.engine)) && imp(ghost.alive && !s.ended, s.txn == nil && s.engine.txn == nil)
